@@ -68,6 +68,8 @@ IntFromDecimalOk(ty, lit, obs) ==
          \/ obs.k = "err" /\ obs.code = -222 /\ Beyond(ty, v)
 
 IsCmdErr(obs) == obs.k = "err" /\ obs.code \in -199..-100
+(* an error the library RETURNED (a 16-bit error/event number); the harness marks a panic with 99999, which is never this *)
+Rejected(obs) == obs.k = "err" /\ obs.code \in -32768..32767
 
 Kw(name) == name          \* keywords are byte sequences
 MAXimum == <<77, 65, 88, 105, 109, 117, 109>>
@@ -108,7 +110,7 @@ IntOk(ty, kind, lit, val, obs) ==
 BoolOk(kind, lit, obs) ==
     CASE kind = "chr" -> IF EqIC(lit, ONkw) THEN obs.k = "ok" /\ obs.d = <<1>>
                          ELSE IF EqIC(lit, OFFkw) THEN obs.k = "ok" /\ obs.d = <<>>
-                         ELSE obs.k = "err"
+                         ELSE Rejected(obs)
       [] kind = "num" -> LET v0 == ParseNRf(lit)  v == IF Tiny(v0) THEN Zero ELSE v0 IN
                          IF Huge(v0) THEN (obs.k = "ok" /\ obs.d = <<1>>) \/ (obs.k = "err" /\ obs.code = -222)
                          ELSE \/ obs.k = "ok" /\ obs.d = <<>>  /\ Near("isize", v, S(FALSE, <<>>))          \* rounds to zero
@@ -167,7 +169,7 @@ Accepts(target, kind) ==
       [] target = "expr"  -> kind = "expr"
 AcceptOk(target, kind, utf8ok, obs) ==
     IF ~Accepts(target, kind) THEN IsCmdErr(obs)
-    ELSE IF target = "utf8" /\ ~utf8ok THEN obs.k = "err"
+    ELSE IF target = "utf8" /\ ~utf8ok THEN Rejected(obs)
     ELSE obs.k = "ok" /\ obs.same          \* the payload handed out is the element's payload
 
 (* ---------------- <numeric_value> (C17) ---------------- *)
